@@ -68,6 +68,32 @@ theorem stacks_restored_after_every_subtree (s : Schema) (hU : ArgsUnique s) (v 
     (visit (M s) v n ti st).1 = ti := by
   rw [visit_M s hU v n inDir inArg ti st hwf hpre]
 
+/-- `typeinfo_independent_of_handler_set`: the wrapped visitor as `*VisitorOptions` with ABSENT callbacks — enter-only,
+leave-only, KindFuncMap entries with only Kind / Enter / Leave, EnterKindMap / LeaveKindMap for any set of kinds, any mix
+(`GetVisitFn`'s precedence is `getEnterFn` / `getLeaveFn`). The machine is pushed and popped at every node whether or
+not a callback fires there: it ends at `NewTypeInfo`'s state, and every callback that does fire is shown the top-down
+context of its node (the option set behaves exactly like the total visitor whose missing functions do nothing). -/
+theorem typeinfo_independent_of_handler_set (s : Schema) (hU : ArgsUnique s) (o : Opts σ) (d : Document) (st : σ) :
+    walkMO s o d st = (TI.empty, refWalk s o.total d st) := by
+  unfold walkMO
+  rw [visitO_eq_visit (M s) rfl o]
+  exact typeinfo_walk_eq_reference s hU o.total d st
+
+/-- …in particular the stacks do not depend on which handlers the wrapped visitor has (two arbitrary option sets,
+even over different state types, leave the same machine state after every well-formed subtree: the one they found). -/
+theorem stacks_independent_of_handler_set {σ₁ σ₂ : Type} (s : Schema) (hU : ArgsUnique s) (o₁ : Opts σ₁) (o₂ : Opts σ₂)
+    (n : TNode) (inDir inArg : Bool) (ti : TI) (st₁ : σ₁) (st₂ : σ₂) (hwf : n.wf inDir inArg = true) (hpre : Pre inDir inArg ti) :
+    (visitO (M s) o₁ n ti st₁).1 = (visitO (M s) o₂ n ti st₂).1 := by
+  rw [visitO_eq_visit (M s) rfl o₁, visitO_eq_visit (M s) rfl o₂, visit_M s hU _ n inDir inArg ti st₁ hwf hpre,
+    visit_M s hU _ n inDir inArg ti st₂ hwf hpre]
+
+/-- an enter-only generic visitor (`VisitorOptions{Enter: f}`) that records what it is shown sees exactly what the
+enter+leave recorder sees — on an executable document `tiRecords` after the Document record -/
+theorem typeinfo_eq_context_enter_only_visitor (s : Schema) (hU : ArgsUnique s) (d : Document) (hE : isExecDoc d = true) :
+    (walkMO s (enterOnly (logger noSkip).enter) d []).2 = ⟨"Document", d.loc, TIState.empty⟩ :: tiRecords s d := by
+  rw [typeinfo_independent_of_handler_set s hU, ← typeinfo_eq_context s hU d hE, mRecords, typeinfo_walk_eq_reference s hU]
+  rfl
+
 /-- the decidable schema check implies the premise of the theorems above -/
 theorem argsUnique_of_argsUniqueB (s : Schema) (h : argsUniqueB s = true) : ArgsUnique s := argsUnique_of_check s h
 
@@ -121,6 +147,30 @@ example : ⟨"Field", 14, 15, "String", "P", "nil", "x", "nil", "nil"⟩ ∈ (mR
 /-- non-vacuity of the skip theorem on the same input: `a`'s subtree is gone, everything else is as without skips -/
 example : (mRecords exSchema exSkipA exDoc).map row = ((mRecords exSchema noSkip exDoc).map row) := by
   decide +kernel   -- `a` is a leaf: skipping it removes no record, and — with the repair — changes none
+
+/-- `{ p { a } p }` -/
+def exDocSibling : Document :=
+  ⟨[.operation .query none [] []
+      (.mk [.field none (nm "p" 2 3) [] [] (some (.mk [.field none (nm "a" 6 7) [] [] none (L 6 7)] (L 4 9))) (L 2 9),
+            .field none (nm "p" 10 11) [] [] none (L 10 11)] (L 0 13)) (L 0 13)], L 0 13⟩
+
+/-- seeded variant C14-4: `TypeInfo.Leave` only inside `if fn != nil` of the Leave wrapper -/
+def leaveOnlyWithHandler (s : Schema) : Tracker := { M s with leaveNeedsHandler := true }
+
+/-- the enter-only recorder: `VisitorOptions{Enter: record}` -/
+def exEnterOnly : Opts (List (String × TIRec)) := loggerOpts noSkip (true, false) (fun _ => none) (fun _ => false) (fun _ => false)
+
+/-- seeded C14-4 as a record: with the variant, an enter-only visitor is shown the second `p` of `{ p { a } p }` with
+parent type P (the frame of the first `p`'s selection set was never popped), no field definition, type nil; with the
+code as it is: parent Q, field definition `p`, type P. So `typeinfo_independent_of_handler_set` fails for the variant. -/
+theorem leave_only_with_handler_fails :
+    (⟨"Field", 10, 11, "nil", "P", "nil", "nil", "nil", "nil"⟩ : Row) ∈
+      ((mEventsWith (leaveOnlyWithHandler exSchema) exEnterOnly exDocSibling).map (fun e => row e.2)) ∧
+    (⟨"Field", 10, 11, "P", "Q", "nil", "p", "nil", "nil"⟩ : Row) ∈
+      ((mEvents exSchema exEnterOnly exDocSibling).map (fun e => row e.2)) ∧
+    (mEventsWith (leaveOnlyWithHandler exSchema) exEnterOnly exDocSibling).map (fun e => row e.2) ≠
+      (mEvents exSchema exEnterOnly exDocSibling).map (fun e => row e.2) := by
+  decide +kernel
 
 /-- `type Q { f(a: In, b: [Int]!): String }  input In { x: Int, y: Int }` -/
 def exSchemaIn : Schema :=
